@@ -2,6 +2,7 @@ package props
 
 import (
 	"fmt"
+	"os"
 	"sort"
 	"strings"
 	"sync"
@@ -202,6 +203,23 @@ func genC05(p *sim.Plan, r *sim.Rand, tier string) {
 	}
 	p.Ops = ops
 	p.Horizon = 60_000_000 + span + int64(3*time.Second)
+	if os.Getenv("DST_C05_RECONN") != "" && p.C("tr") == 1 && r.Bool(0.5) {
+		// (Opt-in, not part of the registered check: see DESIGN.md §15. This family found defects of
+		// the client's reconnection faster than they could be repaired in the time that was left.)
+		// (WebSocket only: a cut ends the connection for both sides at once. On long-polling net/http
+		// absorbs a cut by redialling, and what travelled in the cut response - a CONNECT reply, an
+		// event - is lost on a session that lives on: Engine.IO does not acknowledge poll payloads.)
+		// Reconnecting managers: the connection of one or two of them is cut in the middle of the
+		// traffic. Every namespace of that connection goes down and comes back with the next connection
+		// (what was in flight is lost, that is no concern here); the namespaces of the other managers
+		// are left alone, and at the end everything that nobody disconnected works.
+		p.SetB("reconn", true)
+		for i := 0; i < r.Range(1, 2); i++ {
+			at := 70_000_000 + r.I64n(span)
+			p.Faults = append(p.Faults, sim.Fault{At: at, Kind: "cut", Target: fmt.Sprintf("c%d*", r.Intn(nm))})
+		}
+		p.Horizon += int64(3 * time.Second)
+	}
 }
 
 type c05Delivery struct {
@@ -285,8 +303,14 @@ func runC05(e *sim.Env) {
 	key := func(m int, ns string) string { return fmt.Sprintf("%d|%s", m, ns) }
 	mgrs := make([]*sio.Manager, nm)
 	for m := 0; m < nm; m++ {
-		mgrs[m] = w.NewManager(m, world.ClientOpts{Transports: trs, UpgradeTimeout: far, NoReconnection: true})
+		o := world.ClientOpts{Transports: trs, UpgradeTimeout: far, NoReconnection: true}
+		if p.B("reconn") {
+			d, dm := 50*time.Millisecond, 200*time.Millisecond
+			o.NoReconnection, o.ReconnectionDelay, o.ReconnectionDelayMax = false, &d, &dm
+		}
+		mgrs[m] = w.NewManager(m, o)
 	}
+	w.Net.Schedule(p.Faults)
 	get := func(m int, ns string, known bool) *csock {
 		k := key(m, ns)
 		if s := socks[k]; s != nil {
@@ -516,8 +540,27 @@ func runC05(e *sim.Env) {
 			if nConn > 0 {
 				e.Violate("C05/connected-to-unknown-namespace", sigBase, "manager %d: the socket of %q, a namespace the server does not have, connected", s.m, s.ns)
 			}
-			if nErr != 1 {
+			if nErr != 1 && !(p.B("reconn") && nErr >= 1) {
 				e.Violate("C05/connect-error-count", sigBase, "manager %d: the socket of the unknown namespace %q saw %d connect_error events, want 1", s.m, s.ns, nErr)
+			}
+		case s.discBy == "" && p.B("reconn"):
+			// a cut takes the namespaces of its connection down, the reconnection brings them back
+			cutMine := false
+			for _, f := range p.Faults {
+				cutMine = cutMine || f.Target == fmt.Sprintf("c%d*", s.m)
+			}
+			// (a socket whose CONNECT reply was still pending hears of the end of the connection too:
+			// a disconnect event before its first connect event)
+			endsConnected := false
+			for _, ev := range evs {
+				if ev.Kind == "connect" {
+					endsConnected = true
+				} else if ev.Kind == "disconnect" {
+					endsConnected = false
+				}
+			}
+			if (nDisc > 0 && !cutMine) || !endsConnected || !s.c.Socket.Connected() {
+				e.Violate("C05/collateral-disconnect", sigBase+" reconnecting", "manager %d namespace %q was never disconnected by anybody (its connection was cut: %v), yet: connect=%d disconnect=%d connected=%v; events %v; siblings: %s", s.m, s.ns, cutMine, nConn, nDisc, s.c.Socket.Connected(), evs, c05Siblings(socks, keys, s.m))
 			}
 		case s.discBy == "":
 			// nobody disconnected this socket: whatever happened to its siblings, it is connected and works
